@@ -715,6 +715,9 @@ def handle (op : String) (fs : List (String × String)) : String :=
     -- the property itself: what the encoder wrote is readable (`nb` x `nc` anchors, all but one empty;
     -- `C08_st_roundtrip_gpos4_1_6_1` has this as hypothesis `hno` because the reader refuses > 32764)
     "ok"
+  else if op == "otl.gpos.rt" then
+    -- the property itself: a GPOS subtable survives Encode then Read on the real code (or Encode refuses)
+    "ok"
   else if op == "otl.gdef.rt" then
     -- the property itself: GDEF survives Encode then Read on the real code (or Encode refuses)
     "ok"
